@@ -36,6 +36,18 @@ pub mod tokio { pub mod fs {
                  assert!(src.is_some()); match to { PathBuf::StateFile => FS_STATE_FILE = src, PathBuf::TempFile => FS_TEMP_FILE = src } }
         Ok(())
     }
+    /// copy: the destination is (truncated and) written in place — not atomic
+    pub fn copy(from: &PathBuf, to: &PathBuf) -> Result<u64, eyre::Report> {
+        if kani::any() { return Err(eyre::Report::new()); }
+        unsafe { FS_OPS += 1; let src = match from { PathBuf::TempFile => FS_TEMP_FILE.clone(), PathBuf::StateFile => FS_STATE_FILE.clone() };
+                 assert!(src.is_some()); match to { PathBuf::StateFile => { FS_STATE_FILE = src; FS_STATE_FILE_WRITTEN_DIRECTLY = true; } PathBuf::TempFile => FS_TEMP_FILE = src } }
+        Ok(0)
+    }
+    pub fn remove_file(path: &PathBuf) -> Result<(), eyre::Report> {
+        if kani::any() { return Err(eyre::Report::new()); }
+        unsafe { FS_OPS += 1; match path { PathBuf::TempFile => FS_TEMP_FILE = None, PathBuf::StateFile => { FS_STATE_FILE = None; FS_STATE_FILE_WRITTEN_DIRECTLY = true; } } }
+        Ok(())
+    }
     pub fn read_to_string(path: &PathBuf) -> Result<State, eyre::Report> {
         unsafe { match path { PathBuf::StateFile => FS_STATE_FILE.clone(), PathBuf::TempFile => FS_TEMP_FILE.clone() } }.ok_or(eyre::Report::new())
     }
